@@ -108,23 +108,38 @@ Theorem C06_shares_quantum : forall ce dm self fs vs disperse qu,
 Proof. exact shares_quantum. Qed.
 Print Assumptions C06_shares_quantum.
 
-(* ---- quantity ratios.  PARTIAL: proved for ratios of one type whose units
-   all have a reference unit and a non-zero scale (linear) and whose FIRST
-   unit is unquantized (the total is accumulated in that unit through the
-   constructor).  Missing: ratio types that are themselves quantized (needs
-   the common-grid invariant of C03 for the sum of the ratios; covered by the
-   correspondence only).  For types without reference unit converted by an
-   affine table the statement is FALSE: C06_affine_ratio_type_refuted. ----- *)
-Theorem C06_quantity_ratios_partial : forall ce dm self q0 qs disperse,
-  u_quantum (q_unit q0) = None -> Forall (ratio_unit_ok (q_unit q0)) (q0 :: qs) ->
+(* ---- quantity ratios.
+   [C06_quantity_ratios_linear]: ratios of one type whose units are linear
+   (reference unit, non-zero scale); the ratio type is unquantized, or it is
+   quantized and the ratios lie on its grid (ratio_type_ok) — then allocate
+   runs the core on fractions proportional to the reference values.
+   [C06_quantity_ratios_same_unit]: ratios that all carry one and the same
+   unit, of any type (e.g. money amounts of one currency) — fractions
+   proportional to the amounts.  Together with C06_shares_* these give the
+   property; the two corollaries below spell it out for linear ratio types.
+   PARTIAL with respect to "quantities of one type": NOT covered are types
+   without reference unit in MIXED units (table converters).  For affine
+   tables the property is FALSE (C06_affine_ratio_type_refuted); for
+   offset-free tables it is expected to hold but is not proved. ------------ *)
+Theorem C06_quantity_ratios_linear : forall ce dm self q0 qs disperse,
+  ratio_type_ok q0 qs -> Forall (ratio_unit_ok (q_unit q0)) (q0 :: qs) ->
   ~ qsum (map refv (q0 :: qs)) == 0 ->
   exists fs, proportional fs (map refv (q0 :: qs)) /\
     allocate ce dm self (map RQty (q0 :: qs)) disperse = alloc_core ce dm self fs disperse.
 Proof. exact allocate_quantities. Qed.
-Print Assumptions C06_quantity_ratios_partial.
+Print Assumptions C06_quantity_ratios_linear.
+
+Theorem C06_quantity_ratios_same_unit : forall ce dm self q0 qs disperse,
+  uq_ok (q_unit q0) ->
+  Forall (fun q => q_unit q = q_unit q0 /\ ugrid (q_unit q0) (q_amt q)) (q0 :: qs) ->
+  ~ qsum (map q_amt (q0 :: qs)) == 0 ->
+  exists fs, proportional fs (map q_amt (q0 :: qs)) /\
+    allocate ce dm self (map RQty (q0 :: qs)) disperse = alloc_core ce dm self fs disperse.
+Proof. exact allocate_quantities_same_unit. Qed.
+Print Assumptions C06_quantity_ratios_same_unit.
 
 Theorem C06_quantity_ratios_no_quantum_partial : forall ce dm self q0 qs disperse,
-  u_quantum (q_unit q0) = None -> Forall (ratio_unit_ok (q_unit q0)) (q0 :: qs) ->
+  ratio_type_ok q0 qs -> Forall (ratio_unit_ok (q_unit q0)) (q0 :: qs) ->
   ~ qsum (map refv (q0 :: qs)) == 0 ->
   u_quantum (q_unit self) = None ->
   exists ps r, allocate ce dm self (map RQty (q0 :: qs)) disperse = Ok (ps, r) /\
@@ -134,7 +149,7 @@ Proof. exact allocate_quantities_no_quantum. Qed.
 Print Assumptions C06_quantity_ratios_no_quantum_partial.
 
 Theorem C06_quantity_ratios_quantum_partial : forall ce dm self q0 qs disperse qu,
-  u_quantum (q_unit q0) = None -> Forall (ratio_unit_ok (q_unit q0)) (q0 :: qs) ->
+  ratio_type_ok q0 qs -> Forall (ratio_unit_ok (q_unit q0)) (q0 :: qs) ->
   ~ qsum (map refv (q0 :: qs)) == 0 ->
   u_quantum (q_unit self) = Some qu -> 0 < qu -> ugrid (q_unit self) (q_amt self) ->
   exists ps r, allocate ce dm self (map RQty (q0 :: qs)) disperse = Ok (ps, r) /\
@@ -232,6 +247,33 @@ Example C06_ex_quantity_ratios :
              [RQty (mkQty 2 kg); RQty (mkQty 500 gram); RQty (mkQty (1 # 2) kg)] true)
   = Some ([667 # 100; 167 # 100; 83 # 50], 0).
 Proof. vm_compute. reflexivity. Qed.
+
+(* the hypotheses on quantity ratios are satisfiable: kg / g are linear units
+   of one unquantized type *)
+Example C06_ex_quantity_hypotheses :
+  ratio_type_ok (mkQty 2 kg) [mkQty 500 gram] /\
+  Forall (ratio_unit_ok kg) [mkQty 2 kg; mkQty 500 gram] /\
+  ~ qsum (map refv [mkQty 2 kg; mkQty 500 gram]) == 0.
+Proof.
+  split; [left; reflexivity|]. split; [repeat constructor|]. intros H. vm_compute in H. discriminate H.
+Qed.
+
+(* a quantized ratio type: bytes and bits on the one-bit grid (1/8 B) *)
+Example C06_ex_quantized_ratio_type :
+  let byte := mkUnit 5 3 true (Some 1) (Some (1 # 8)) in
+  let bit := mkUnit 6 3 true (Some (1 # 8)) (Some 1) in
+  ratio_type_ok (mkQty 3 byte) [mkQty 5 bit] /\
+  Forall (ratio_unit_ok byte) [mkQty 3 byte; mkQty 5 bit] /\
+  amounts (allocate noconv MHEVEN (mkQty 10 eur) [RQty (mkQty 3 byte); RQty (mkQty 5 bit)] true)
+  = Some ([207 # 25; 43 # 25], 0).
+Proof.
+  cbv zeta. split.
+  - right. exists (1 # 8). split; [intros H; discriminate H|].
+    constructor; [exists (1 # 8); split; [reflexivity|]; split; [reflexivity|]; exists 24%Z; reflexivity|].
+    constructor; [exists 1; split; [reflexivity|]; split; [reflexivity|]; exists 5%Z; reflexivity|].
+    constructor.
+  - split; [repeat constructor|]. vm_compute. reflexivity.
+Qed.
 
 (* The bound under the half-modes is attained on exact ties, so it cannot be
    strict: 1 split 1:1 with quantum 1 under HALF_UP gives 1, 1, remainder -1
